@@ -27,6 +27,8 @@ import (
 	"time"
 )
 
+var hasExpand bool
+
 var (
 	verifDir = envOr("VERIF_DIR", "/verif")
 	goBin    = envOr("VERIF_GO", "go1.26.8")
@@ -68,6 +70,7 @@ type result struct {
 type rec struct {
 	Ev       string          `json:"ev"`
 	Run      int             `json:"run"`
+	Sub      int             `json:"sub,omitempty"`
 	Res      *result         `json:"res,omitempty"`
 	Sig      string          `json:"sig,omitempty"`
 	Scenario json.RawMessage `json:"scenario,omitempty"`
@@ -82,6 +85,7 @@ type meta struct {
 	QuickRuns   int               `json:"quick_runs"`
 	ThoroughS   int               `json:"thorough_s"`
 	Legs        []leg             `json:"legs"`
+	Expand      bool              `json:"expand"`
 }
 
 type leg struct {
@@ -97,6 +101,7 @@ type replayFile struct {
 	Property  string          `json:"property"`
 	Seed      uint64          `json:"seed"`
 	Run       int             `json:"run"`
+	Sub       int             `json:"sub,omitempty"`
 	Tier      string          `json:"tier"`
 	Signature string          `json:"signature"`
 	Scenario  json.RawMessage `json:"scenario"`
@@ -109,6 +114,7 @@ type replayFile struct {
 type found struct {
 	sig      string
 	run      int
+	sub      int
 	tier     string
 	scenario json.RawMessage
 	res      *result
@@ -250,7 +256,7 @@ func newAgg() *agg {
 func (a *agg) addFound(f *found) {
 	if e, ok := a.found[f.sig]; ok {
 		e.count++
-		if f.run < e.run && f.tier == e.tier {
+		if (f.run < e.run || f.run == e.run && f.sub < e.sub) && f.tier == e.tier {
 			f.count = e.count
 			a.found[f.sig] = f
 		}
@@ -283,7 +289,7 @@ func (a *agg) add(r *rec, tier string, keepDigests bool) {
 		a.probes[k] += v
 	}
 	if keepDigests {
-		a.digests[r.Run] = res.TraceDigest
+		a.digests[r.Run<<16|r.Sub] = res.TraceDigest
 	}
 	if res.HarnessError != "" {
 		a.harnessErrs = append(a.harnessErrs, fmt.Sprintf("run %d: %s", r.Run, res.HarnessError))
@@ -294,7 +300,7 @@ func (a *agg) add(r *rec, tier string, keepDigests bool) {
 		a.inconcl++
 	}
 	if len(res.Violations) > 0 {
-		a.addFound(&found{sig: r.Sig, run: r.Run, tier: tier, scenario: r.Scenario, res: res})
+		a.addFound(&found{sig: r.Sig, run: r.Run, sub: r.Sub, tier: tier, scenario: r.Scenario, res: res})
 	} else if len(r.Scenario) > 0 && len(a.samples) < 4 {
 		a.samples = append(a.samples, r.Scenario)
 	}
@@ -303,11 +309,12 @@ func (a *agg) add(r *rec, tier string, keepDigests bool) {
 // runWorker runs one worker process over runs from, from+step, ... < to, restarting after crashes.
 func runWorker(bin, id, tier string, seed uint64, from, to, step int, budget time.Duration, procs int, a *agg, keepDigests bool, samples int) {
 	deadline := time.Now().Add(budget)
+	subFrom := 0
 	for from < to {
 		env := map[string]string{
 			"VSIM_MODE": "batch", "VSIM_PROP": id, "VSIM_TIER": tier, "VSIM_SEED": strconv.FormatUint(seed, 10),
 			"VSIM_FROM": strconv.Itoa(from), "VSIM_TO": strconv.Itoa(to), "VSIM_STEP": strconv.Itoa(step),
-			"VSIM_SAMPLES": strconv.Itoa(samples), "GOMAXPROCS": strconv.Itoa(procs),
+			"VSIM_SAMPLES": strconv.Itoa(samples), "GOMAXPROCS": strconv.Itoa(procs), "VSIM_SUBFROM": strconv.Itoa(subFrom),
 		}
 		if budget > 0 {
 			left := time.Until(deadline)
@@ -336,6 +343,7 @@ func runWorker(bin, id, tier string, seed uint64, from, to, step int, budget tim
 			return
 		}
 		inflight := -1
+		inflightSub := 0
 		done := false
 		sc := bufio.NewScanner(stdout)
 		sc.Buffer(make([]byte, 1<<20), 1<<28)
@@ -377,6 +385,7 @@ func runWorker(bin, id, tier string, seed uint64, from, to, step int, budget tim
 			case "begin":
 				wmu.Lock()
 				inflight = r.Run
+				inflightSub = r.Sub
 				runStart = time.Now()
 				wmu.Unlock()
 			case "end":
@@ -409,16 +418,21 @@ func runWorker(bin, id, tier string, seed uint64, from, to, step int, budget tim
 			a.mu.Unlock()
 		} else {
 			a.evals++
-			scj, class := genScenario(bin, id, tier, seed, inflight)
+			scj, class := genScenario(bin, id, tier, seed, inflight, inflightSub)
 			sig := id + " " + clause
 			if site != "" {
 				sig += " @" + site
 			}
 			sig += " [" + class + "]"
-			a.addFound(&found{sig: sig, run: inflight, tier: tier, scenario: scj, res: &result{Violations: []violation{{Clause: clause, Site: site, Detail: detail}}}, crash: detail})
+			a.addFound(&found{sig: sig, run: inflight, sub: inflightSub, tier: tier, scenario: scj, res: &result{Violations: []violation{{Clause: clause, Site: site, Detail: detail}}}, crash: detail})
 			a.mu.Unlock()
 		}
-		from = inflight + step
+		if hasExpand {
+			from = inflight
+			subFrom = inflightSub + 1
+		} else {
+			from = inflight + step
+		}
 	}
 }
 
@@ -430,8 +444,8 @@ func lastN(s string, n int) string {
 	return s
 }
 
-func genScenario(bin, id, tier string, seed uint64, run int) (json.RawMessage, string) {
-	cmd := simCmd(bin, map[string]string{"VSIM_MODE": "gen", "VSIM_PROP": id, "VSIM_TIER": tier, "VSIM_SEED": strconv.FormatUint(seed, 10), "VSIM_FROM": strconv.Itoa(run)})
+func genScenario(bin, id, tier string, seed uint64, run, sub int) (json.RawMessage, string) {
+	cmd := simCmd(bin, map[string]string{"VSIM_MODE": "gen", "VSIM_PROP": id, "VSIM_TIER": tier, "VSIM_SEED": strconv.FormatUint(seed, 10), "VSIM_FROM": strconv.Itoa(run), "VSIM_SUB": strconv.Itoa(sub)})
 	b, err := cmd.Output()
 	if err != nil {
 		return nil, "?"
@@ -545,7 +559,7 @@ func writeReplay(path string, rf *replayFile) error {
 // minimise shrinks scenario and schedule while the same signature persists. Every candidate runs
 // in a fresh process (it may crash it). Bounded by candidates and wall time.
 func minimise(bin, id string, f *found, seed uint64, scratch string) (*replayFile, int) {
-	cur := &replayFile{Property: id, Seed: seed, Run: f.run, Tier: f.tier, Signature: f.sig, Scenario: f.scenario, Violation: f.res.Violations, Trace: f.res.Trace}
+	cur := &replayFile{Property: id, Seed: seed, Run: f.run, Sub: f.sub, Tier: f.tier, Signature: f.sig, Scenario: f.scenario, Violation: f.res.Violations, Trace: f.res.Trace}
 	tmp := filepath.Join(scratch, "cand.json")
 	deadline := time.Now().Add(60 * time.Second)
 	tried := 0
@@ -672,6 +686,7 @@ func check(id, tier string) int {
 	if len(m.Legs) == 0 {
 		m.Legs = []leg{{Name: "D", QuickRuns: m.QuickRuns, Share: 1}}
 	}
+	hasExpand = m.Expand
 	budget := time.Duration(m.ThoroughS) * time.Second
 	if v := os.Getenv("VERIF_BUDGET_S"); v != "" {
 		if n, err := strconv.Atoi(v); err == nil {
@@ -743,8 +758,8 @@ func check(id, tier string) int {
 	sort.Strings(sigs)
 	for i, sig := range sigs {
 		f := a.found[sig]
-		path := filepath.Join(verifDir, "replays", fmt.Sprintf("%s-%s-s%d-r%d.json", id, sigHash(sig), seed, f.run))
-		rf := &replayFile{Property: id, Seed: seed, Run: f.run, Tier: f.tier, Signature: sig, Scenario: f.scenario, Violation: f.res.Violations, Trace: f.res.Trace}
+		path := filepath.Join(verifDir, "replays", fmt.Sprintf("%s-%s-s%d-r%d.%d.json", id, sigHash(sig), seed, f.run, f.sub))
+		rf := &replayFile{Property: id, Seed: seed, Run: f.run, Sub: f.sub, Tier: f.tier, Signature: sig, Scenario: f.scenario, Violation: f.res.Violations, Trace: f.res.Trace}
 		_ = writeReplay(path, rf)
 		rbin := bin
 		if strings.Contains(f.tier, ":R") {
